@@ -112,6 +112,7 @@ class Injector:
         self.cur: Optional[int] = None
         self.input = self.output = self.tmp = None
         self.stat_seen = False
+        self.kind = "os"
         self.calls: List[str] = []
 
     def say(self, obj) -> None:
@@ -135,14 +136,21 @@ class Injector:
             self.say({"fired": [self.cur, op, what]})
             if what == "die":
                 os._exit(EXIT_DIED)
+            what, _, kind = what.partition(":")          # "raise:kbd" -> raise, KeyboardInterrupt
+            self.kind = kind or "os"
         return what
 
     def die(self):
         os._exit(EXIT_DIED)
 
-
-def _err(code, op):
-    return OSError(code, f"injected fault at {op}")
+    def err(self, code, op):
+        """The exception to raise for the deviation just returned by hit(): OSError, or a BaseException that is
+        not an Exception (KeyboardInterrupt = Ctrl-C, SystemExit = SIGTERM handler / sys.exit)."""
+        if self.kind == "kbd":
+            return KeyboardInterrupt(f"injected KeyboardInterrupt at {op}")
+        if self.kind == "exit":
+            return SystemExit(f"injected SystemExit at {op}")
+        return OSError(code, f"injected fault at {op}")
 
 
 class FileProxy:
@@ -166,13 +174,13 @@ class FileProxy:
         if what and what.startswith("die"):
             self._inj.die()
         if what and what.startswith("raise"):
-            raise _err(errno.ENOSPC, "write")
+            raise self._inj.err(errno.ENOSPC, "write")
         return self._real.write(s)
 
     def flush(self):
         what = self._inj.hit("flush")
         if what == "raise":
-            raise _err(errno.ENOSPC, "flush")
+            raise self._inj.err(errno.ENOSPC, "flush")
         return self._real.flush()
 
     def close(self):
@@ -186,7 +194,7 @@ class FileProxy:
             what = self._inj.hit("close")
             self._real.close()
             if what == "raise":
-                raise _err(errno.EIO, "close")
+                raise self._inj.err(errno.EIO, "close")
         else:
             self._real.close()
         return None
@@ -209,7 +217,7 @@ class _IoShim:
         what = inj.hit("wrap")
         if what == "raise":
             f.close()
-            raise _err(errno.EIO, "wrap")
+            raise inj.err(errno.EIO, "wrap")
         return FileProxy(f, inj)
 
 
@@ -238,39 +246,39 @@ def install(inj: Injector) -> None:
         if inj.armed and not inj.stat_seen and isinstance(path, str) and path == inj.input:
             inj.stat_seen = True
             if inj.hit("stat") == "raise":
-                raise _err(errno.EACCES, "stat")
+                raise inj.err(errno.EACCES, "stat")
         return r_stat(path, *a, **k)
 
     def w_open(path, flags, *a, **k):
         if inj.armed and flags & os.O_CREAT and flags & os.O_EXCL:
             inj.tmp = path
             if inj.hit("open") == "raise":
-                raise _err(errno.ENOSPC, "open")
+                raise inj.err(errno.ENOSPC, "open")
         return r_open(path, flags, *a, **k)
 
     def w_fsync(fd):
         if inj.armed and inj.hit("fsync") == "raise":
-            raise _err(errno.EIO, "fsync")
+            raise inj.err(errno.EIO, "fsync")
         return r_fsync(fd)
 
     def w_chmod(path, *a, **k):
         if inj.armed and path == inj.tmp and inj.hit("chmod") == "raise":
-            raise _err(errno.EPERM, "chmod")
+            raise inj.err(errno.EPERM, "chmod")
         return r_chmod(path, *a, **k)
 
     def w_rename(src, dst, *a, **k):
         if inj.armed and src == inj.tmp and inj.hit("rename") == "raise":
-            raise _err(errno.EBUSY, "rename")
+            raise inj.err(errno.EBUSY, "rename")
         return r_rename(src, dst, *a, **k)
 
     def w_unlink(path, *a, **k):
         if inj.armed and path == inj.tmp and (inj.cur, "rename") in inj.plan and inj.hit("cunlink") == "raise":
-            raise _err(errno.EPERM, "cunlink")
+            raise inj.err(errno.EPERM, "cunlink")
         return r_unlink(path, *a, **k)
 
     def w_remove(path, *a, **k):
         if inj.armed and path == inj.tmp and inj.hit("remove") == "raise":
-            raise _err(errno.EPERM, "remove")
+            raise inj.err(errno.EPERM, "remove")
         return r_remove(path, *a, **k)
 
     os.stat, os.open, os.fsync, os.chmod, os.rename, os.unlink, os.remove = (w_stat, w_open, w_fsync, w_chmod, w_rename,
@@ -281,7 +289,7 @@ def install(inj: Injector) -> None:
     def s_open(file, mode="r", *a, **k):
         if inj.armed and "w" in mode and isinstance(file, str) and os.path.abspath(file) == os.path.abspath(inj.output):
             if inj.hit("copen") == "raise":
-                raise _err(errno.EACCES, "copen")
+                raise inj.err(errno.EACCES, "copen")
         return builtins.open(file, mode, *a, **k)
 
     def s_copy(fsrc, fdst, *a, **k):
@@ -293,14 +301,14 @@ def install(inj: Injector) -> None:
         if what and what.startswith("die"):
             inj.die()
         if what and what.startswith("raise"):
-            raise _err(errno.ENOSPC, "cdata")
+            raise inj.err(errno.ENOSPC, "cdata")
         fdst.write(data)
 
     r_copystat = shutil.copystat
 
     def s_copystat(src, dst, *a, **k):
         if inj.armed and inj.hit("cstat") == "raise":
-            raise _err(errno.EPERM, "cstat")
+            raise inj.err(errno.EPERM, "cstat")
         return r_copystat(src, dst, *a, **k)
 
     shutil.open = s_open                  # module global shadowing the builtin, for shutil only
@@ -331,8 +339,6 @@ def replay_plan(case: dict, base: str, linter=None) -> dict:
                 try:
                     _action(case, d, linter)
                     inj.say({"outcome": "ok"})
-                except SystemExit:
-                    raise
                 except BaseException as e:  # noqa: the code under test re-raises whatever was injected
                     inj.say({"outcome": "exc", "exc": f"{type(e).__name__}: {e}"})
                 code = 0
@@ -357,7 +363,7 @@ def replay_plan(case: dict, base: str, linter=None) -> dict:
         proj = project(d, nfiles, skip, suffix)
         fired = [m["fired"] for m in msgs if "fired" in m]
         obs = {"suffix": suffix, "outcome": outcome, "strays": proj["strays"], "files": proj["files"],
-               "remove_failed": any(f[1] == "remove" and f[2] == "raise" for f in fired)}
+               "remove_failed": any(f[1] == "remove" and f[2].startswith("raise") for f in fired)}
         return {"id": case["id"], "obs": obs, "fired": fired, "ops": [m["op"] for m in msgs if "op" in m],
                 "calls": [m["call"] for m in msgs if "call" in m], "names": proj["names"],
                 "exc": next((m.get("exc") for m in msgs if "exc" in m), None)}
